@@ -530,6 +530,8 @@ func init() {
 			// lexer_ctx_sim evaluated by the model: on the fragment of the reference tokenizer
 			// (RefTok.v) the context of every show is the abstraction of the reference state
 			c.Line("ctxsim", Hx(src), "ok:31")
+			// the same for the reference with options (first version, corrected fragment, proved sub-fragment)
+			c.Line("ctxsim2", Hx(src), "ok:313131")
 			c.Count("cases")
 		}
 		if in := c.ReplayInput(); in != nil {
